@@ -331,6 +331,14 @@ def r4_delegation(ctx):
         table = F.dispatch_table(ctx, fi, fi.params[1])
         end, val, sp = table.get('kern', table[Ellipsis])
         c = F.constructed_class(ctx, val, fi) if end == 'return' else None
+        glue_call = False
+        if c is None and end == 'return' and isinstance(val, ast.Call):
+            t_, _b = F._static_callee(ctx, val, fi)
+            glue_call = t_ is not None and t_.name != '__init__' and not ctx.prog.is_anchor(t_)
+        if c is None and end == 'return' and isinstance(val, ast.Call) and (glue_call or (
+                isinstance(val.func, ast.Name) and ctx.prog.resolve(fi.module, val.func.id) is None)):
+            # the class is a value taken from a registry and called through a variable: not followed
+            raise AnalysisError(f'{fi.loc}: create(\'kern\') returns `{src(val)[:60]}`: the class called is a run-time value')
         ctx.check(c is not None and c.name == fmt_cls, 'R4', fi.loc, fi.qualname, f'factory-kern:{fmt_cls}',
                   f"create('kern') returns {fmt_cls}()")
     # public re-export
